@@ -521,6 +521,10 @@ func runSend(h *hx) string {
 			h.bad("send:not-prompt:"+entry, "%s while not Selected (%s) took %v of virtual time", entry, sp.Sit, call.End-call.Start)
 			return ""
 		}
+		if n := h.totalBytes(); n != bytes0 {
+			h.bad("send:bytes-on-wire:"+entry, "%s in situation %s (err=%v): %d bytes reached the peer: %v", entry, sp.Sit, err, n-bytes0, keys(w.Read()))
+			return ""
+		}
 		if !errors.Is(err, sit.err) {
 			h.bad("send:error:"+entry, "%s in situation %s returned %v, want %v", entry, sp.Sit, err, sit.err)
 			return ""
